@@ -143,7 +143,7 @@ func c02Check(c *sim.Ctx, w *world.World) {
 
 func indexProfile(s *sim.Src, tier string) world.Profile {
 	prof := world.Profile{PageSizes: []int{512, 1024, 4096, 512, 2048, 8192, 65536, 16384, 32768}, MaxTables: 2, RowsLo: 5, RowsHi: 300, Fancy: 3, DDL: true, Vacuum: true,
-		Boundary: true, LongKeys: 5, WithoutRow: 4, IndexesHi: 4, Exprs: true}
+		Boundary: true, LongKeys: 5, WithoutRow: 4, IndexesHi: 4, Exprs: true, LegacyFormat: true}
 	if s.Chance(1, 3, "small") {
 		prof.PageSizes = []int{512}
 		prof.RowsHi = 700
